@@ -306,7 +306,7 @@ def step (st : St) (op impl : String) : St × StepOut :=
       let r := readFrames dec max pieces
       let split := (r.1, streamLen pieces - streamLen r.2.1)
       let tr := r.2.2
-      let maxReq := tr.foldl (fun a e => Nat.max a e.req) 0
+      let maxReq := Codec.maxReq tr
       let sumReq := tr.foldl (fun a e => a + e.req) 0
       let model := s!"whole={showObs whole} split={showObs split} maxreq={maxReq} reads={tr.length} sumreq={sumReq}"
       -- oracle on the implementation's observation
